@@ -700,7 +700,7 @@ META = {
             "zoo: special descriptor atoms in accepted and odd shapes x odd bound rows, "
             "token/byte mutations, truncations, random bytes; each stage under recover(), a fact limit and a per-case deadline). The fuzz loop "
             "supports the search for a failing input; it is not a proof.",
-    "note": "Proof level applies to the two decoders only (models hand-written, correspondence sampled + exhaustive on short inputs; library "
+    "note": "Proof level applies to the two decoders and to the bound-row code of CheckDecl / desugarOneDecl only (models hand-written; the recursive desugaring of a referenced predicate enters the row model as the class of the entry, correspondence sampled + exhaustive on short inputs; library "
             "functions strconv/fmt/url/parser enter the reader model as an arbitrary table). Parser, analysis and engine: runtime fuzzing only "
             "(about 20k inputs quick, millions thorough), no coverage guidance, no claim of absence of panics. Known findings with probes: N23, N24, N110 (deferred() without mode), N111 (recursive deferred predicate does not "
             "terminate), N112 (fn:float:sum on a list of a wide union), N113 (source synthetic() declaration with several rows, recursive predicate). "
